@@ -10,9 +10,10 @@ import (
 // It can recursively resolve references in dictionaries and arrays
 type ObjectResolver struct {
 	reader       ObjectReader
-	visited      map[int]bool // Cycle detection
-	maxDepth     int          // Maximum recursion depth
-	currentDepth int          // Current recursion depth
+	visited      map[int]bool                     // Cycle detection
+	done         map[core.IndirectRef]core.Object // Deeply resolved objects of the current top-level call
+	maxDepth     int                              // Maximum recursion depth
+	currentDepth int                              // Current recursion depth
 }
 
 // ObjectReader interface allows the resolver to work with any reader
@@ -65,6 +66,7 @@ func (r *ObjectResolver) resolve(obj core.Object, deep bool) (core.Object, error
 	// while still detecting circular references within a single resolution tree
 	if r.currentDepth == 0 {
 		r.visited = make(map[int]bool)
+		r.done = make(map[core.IndirectRef]core.Object)
 	}
 
 	// Check depth limit
@@ -74,6 +76,16 @@ func (r *ObjectResolver) resolve(obj core.Object, deep bool) (core.Object, error
 
 	switch v := obj.(type) {
 	case core.IndirectRef:
+		// An object referenced from several places is resolved once per top-level
+		// call and the result shared. Resolving it again on every path is
+		// exponential in the depth of the graph: arrays of two references to the
+		// next array, 40 levels deep (a 1 KB file), asked for 2^40 resolutions.
+		if deep {
+			if res, ok := r.done[v]; ok {
+				return res, nil
+			}
+		}
+
 		// Check for cycles
 		if r.visited[v.Number] {
 			return nil, fmt.Errorf("circular reference detected for object %d", v.Number)
@@ -100,6 +112,7 @@ func (r *ObjectResolver) resolve(obj core.Object, deep bool) (core.Object, error
 			if err != nil {
 				return nil, err
 			}
+			r.done[v] = resolved
 		}
 
 		return resolved, nil
@@ -169,6 +182,7 @@ func (r *ObjectResolver) resolve(obj core.Object, deep bool) (core.Object, error
 // Call this between independent resolution operations
 func (r *ObjectResolver) Reset() {
 	r.visited = make(map[int]bool)
+	r.done = nil
 	r.currentDepth = 0
 }
 
